@@ -25,6 +25,12 @@ TEXT = {
     "C07": dict(technique="property-based testing (rapid): history invariants over the FindNextMatch sequence + independent recomputation of every step (naive scan hook)",
                 text="Generated-input search over zero-width-heavy ASTs and corpus patterns x options x inputs x n: order, disjointness, no repeated empty match, termination within len+1, every step recomputed by an independent search from the previous end with \\G bound there, completeness of the sequence, and FindAll*/compat.FindAll* equal to the filtered, truncated sequence.",
                 note="Recomputation uses the naive-scan hook (same interpreter); for \\G-free patterns it is cross-checked with the public FindRunesMatchStartingAt.", ref="§6 C07"),
+    "C02": dict(technique="property-based testing (rapid): differential between all public entry points of one compiled Regexp on one input",
+                text="Generated-input search over F-full / F-accel ASTs and corpus patterns x all option bits x compile options x byte strings with multi-byte and invalid UTF-8: boolean calls, string/rune find calls, StartingAt at every aligned offset, both FindNextMatch iterations, FindAll*Index, 16 adapter methods and the match enumeration decoded from ReplaceFunc/Replace/Split must all describe the same matches and captures.",
+                note="Agreement is a relation between entry points; which answer is right is C01/C03's job. Replace/Split outputs are compared in rune-decoded form.", ref="§6 C02"),
+    "C08": dict(technique="property-based testing (rapid): validity predicate over every returned match + independent byte-offset model",
+                text="Generated-input search (balancing groups, captures in lookbehind/loops, 1-4 byte runes, U+FFFD, invalid bytes, invalid runes): every match from string and rune iterations satisfies the structural predicate and ByteRange equals the byte model of the original string; ByteRange, FindAllStringIndex and the adapter index methods agree. The same predicate also runs on every match inside the C01, C02, C03, C07, C15 harnesses.",
+                note="Byte model = utf8.DecodeRuneInString (invalid byte = one rune = one byte). Negative runes are outside the input domain.", ref="§6 C08"),
 }
 
 PENDING = "check not built yet in this session (work in progress; see DESIGN.md section 6 for the planned generated-input check)"
